@@ -7,6 +7,7 @@ Every graph TLC emits is declared on a real ArgParser and every (command, option
 """
 import contextlib
 import io
+import json
 import os
 import sys
 
@@ -19,14 +20,44 @@ def _cfg(maxcmd, emit):
                 maxcmd, 'TRUE' if emit else 'FALSE'))
 
 
-def _name(i, internal):
-    return ('s%d' if internal else 'c%d') % i
+SCHEMES = [('s%d', 'c%d'), ('set%d', 'cmd%d'), ('o%dx', 'k%dx'), ('%ds', '%dc'), ('opt-%d', 'run-%d'), ('S%d', 'C%d'),
+           ('zz%d', 'aa%d'), ('%d_', '_%d')]
 
 
-def _build(case):
+def _names(case, scheme):
+    fi, fc = SCHEMES[scheme]
+    return [(fi if case['internal'][i] else fc) % (i + 1) for i in range(len(case['parents']))]
+
+
+def _orders(case, scheme):
+    """iteration order of the parents sets (built the way the constructor builds them) of the multi-parent parsers"""
+    names = _names(case, scheme)
+    out = []
+    for ps in case['parents']:
+        if len(ps) > 1:
+            st = {pp for p in ','.join(names[p - 1] for p in ps).split(',') if (pp := p.strip())}
+            out.append(tuple(names.index(x) for x in st))
+    return out
+
+
+def alt_scheme(case):
+    """a naming scheme under which as many parents sets as possible are iterated in another order than under scheme 0
+    (the constructor walks a set of parent names: the order depends on the names); None when nothing differs"""
+    base = _orders(case, 0)
+    if not base:
+        return None
+    best, bestn = None, 0
+    for sch in range(1, len(SCHEMES)):
+        k = sum(1 for a, b in zip(base, _orders(case, sch)) if a != b)
+        if k > bestn:
+            best, bestn = sch, k
+    return best
+
+
+def _build(case, scheme=0):
     from ak import cli_tools
     n = len(case['parents'])
-    names = [_name(i + 1, case['internal'][i]) for i in range(n)]
+    names = _names(case, scheme)
     cmds = []
     for i in range(n):
         decl = ('!' if case['internal'][i] else '') + names[i]
@@ -58,14 +89,14 @@ def _parse(parser, argv, from_sys_argv=False):
         sys.argv = old_argv
 
 
-def check_case(case):
+def check_case(case, scheme=0):
     """Replay one declaration list on the real ArgParser.  Returns (violations, drift, nparses);
     violations = [(what, tags, argv)]"""
     viol, drift = [], []
     n = len(case['parents'])
     diamond = _has_diamond(case)
     try:
-        parser, names, cmds = _build(case)
+        parser, names, cmds = _build(case, scheme)
     except AssertionError as e:
         return [('ArgParser(commands=...) raised AssertionError(%s) for an acyclic declaration' % str(e)[:60],
                  ['cli.diamond_assertion'] if diamond else [], None)], [], 0
@@ -168,7 +199,15 @@ def _has_diamond(case):
 
 
 def _job(case):
-    return check_case(case)
+    viol, drift, np_ = check_case(case)
+    viol = [v + (0,) for v in viol]
+    alt = alt_scheme(case)
+    if alt is not None:
+        v2, d2, n2 = check_case(case, alt)
+        viol += [v + (alt,) for v in v2]
+        drift += d2
+        np_ += n2
+    return viol, drift, np_
 
 
 def run(ctx):
@@ -189,6 +228,17 @@ def run(ctx):
         if len(got) != expect:
             raise Machinery('ArgGraph emitted %d cases for MaxCmd=%d, expected %d' % (len(got), k, expect))
         cases += got
+    n_exh = len(cases)
+    # six parsers: a random sample of the declaration lists (2^21 of them)
+    r = ctx.tlc('cli/ArgGraph.tla', _cfg(6, True), workers=4, simulate=(300 if ctx.quick else 6000) // 4, depth=20, timeout=1800)
+    seen = set()
+    for c in r.printed:
+        if isinstance(c, dict):
+            key = json.dumps(c, sort_keys=True)
+            if key not in seen:
+                seen.add(key)
+                cases.append(c)
+    ctx.extra['graphs_of_6_parsers_sampled'] = len(seen)
     # design-level refutation of the original asserting loop (model regression guard)
     r = ctx.tlc('cli/ArgGraphAsCoded.tla',
                 'SPECIFICATION Spec\nCHECK_DEADLOCK FALSE\nCONSTANTS\n  MaxCmd = 4\nINVARIANT NoAssertion\n',
@@ -202,8 +252,8 @@ def run(ctx):
     for case, (viol, drift, np_) in zip(cases, results):
         nparse += np_
         ndiamond += 1 if _has_diamond(case) else 0
-        for what, tags, argv in viol:
-            ctx.violation({'graph': case, 'argv': argv}, what, tags)
+        for what, tags, argv, scheme in viol:
+            ctx.violation({'graph': case, 'argv': argv, 'scheme': scheme}, what, tags)
         for d in drift[:1]:
             ctx.note_drift(d)
     # negative self-test: a corrupted expectation must be noticed by the replay
@@ -215,7 +265,7 @@ def run(ctx):
     ctx.selftest(bool(v), 'replay accepted a corrupted Accepts matrix')
     ctx.traces = len(cases)
     ctx.exhaustive = True
-    ctx.extra['graphs'] = len(cases)
+    ctx.extra['graphs'] = n_exh
     ctx.extra['graphs_with_diamond'] = ndiamond
     ctx.extra['parse_args_calls'] = nparse
     ctx.extra['max_commands'] = maxn
@@ -224,7 +274,7 @@ def run(ctx):
 
 
 def replay(ctx, case):
-    viol, _, _ = check_case(case['graph'])
+    viol, _, _ = check_case(case['graph'], case.get('scheme', 0))
     if case.get('argv') is None:
         return viol[0][0] if viol else None
     for what, tags, argv in viol:
